@@ -20,6 +20,7 @@ pub mod c15;
 pub mod c16;
 pub mod c17;
 pub mod c18;
+pub mod c19;
 pub mod c20;
 pub mod common;
 
@@ -44,6 +45,7 @@ pub const TABLE: &[(&str, RunFn, ReplayFn)] = &[
     ("C16", c16::run, c16::replay),
     ("C17", c17::run, c17::replay),
     ("C18", c18::run, c18::replay),
+    ("C19", c19::run, c19::replay),
     ("C20", c20::run, c20::replay),
 ];
 
